@@ -183,7 +183,7 @@ def run(tier):
             "foreign_table": foreign,
             "faults_fired": {k: v for k, v in sorted(agg.stats.items()) if k.startswith(("state_", "write_fault", "interp_", "crash_", "artefacts_", "entry_"))},
             "probes": {k: agg.stats[k] for k in ("incarnations", "items_parsed", "outcomes_compared", "cache_rewritten",
-                                                 "started_with_invalid_cache", "cache_repaired", "subclass_probes", "subclass_items_differing_from_base", "tables_in_use_checked", "overlap_groups_checked",
+                                                 "started_with_invalid_cache", "cache_repaired", "subclass_probes", "subclass_items_differing_from_base", "tables_in_use_checked", "tables_in_use_uninspectable", "overlap_groups_checked",
                                                  "subclass_unavailable")},
             "transitions_seen": len(cells),
             "runs_per_hour": int(agg.evals / max(wall_s, 1e-6) * 3600),
